@@ -143,6 +143,9 @@ class StateVectorEvolution(MatrixData, BasisManaged):
                 rhot.data[1:,ii,jj] = self.data[1:,ii]* \
                                       numpy.conj(self.data[1:,jj])
         
+        # the derived evolution lives in the same frame as the state vectors
+        rhot.is_in_rwa = bool(getattr(self, "is_in_rwa", False))
+        
         return rhot
         
             
